@@ -25,6 +25,19 @@ state and aliasing audit, see the second table):
   letter case: mixed / all lower / swapped          random-planted (mixed); case-variants        I  P  sig
   long sequences (to 1 MB quick, 4 MB thorough;     big (Python reference predicate only, model  I  P  big
     occurrences across 2^15 / 2^16 / 2^20 offsets)    skipped: the Coq spec is quadratic)
+  long sequences, OFFSET of an occurrence: a whole   big-boundary (key `boundary`): B = 2^12, 2^16  I  P  big
+    prefix+k-mer span beginning j bytes before an     (every j = 0..prefix_len+k), 2^20, 10^6 (j =
+    offset B, for every alignment j of the span to    0,1,2, prefix_len-1..+1, k-1..k+1, w-2..w),
+    B (B inside the prefix / at the junction /        2^21, 2^22 (j = 1, w-1), both strands, one
+    inside the k-mer / span flush with B on either    sequence of B + <= 400 bytes per (j, strand)
+    side), in sequences just longer than B, of        + lengths B+0,1,k,w-1,w + one of 3 B with
+    exactly B + 0 / 1 / k / w bytes, and longer       spans across B, 2 B, 3 B; thorough: 2^10 ..
+    than 3 B.  Before: the windows planted by `big`   2^24, 10^3 .. 10^7.  big-comb (key `comb`):
+    around one offset overwrote each other, only      one 2 MB sequence (thorough: to 8 MB) with a
+    the span BEGINNING at 2^15 / 2^16 / 2^20          span across every multiple of 2^12 and 10^4,
+    survived, none straddled it (round-8 seed:        alignment / strand / case hashed from the
+    sequences over 2^20 bytes searched in windows     multiple.  Every planted k-mer occurs once in
+    overlapping by k instead of prefix_len+k-1)       the case; background N / n / random ACGT(acgt)
   collection: list of 1..3                          exhaustive, random-planted                   I  P  sig
   collection: empty, 10..60 items, repeats, empties empty-collection, many-seqs                  I  P  sig
   collection: tuple / iterator / generator / deque  api (variants c:*)                           I  P  api
@@ -99,6 +112,8 @@ thread) / in a forked worker process.  "before" = what the single-call kinds alr
   the CALLER changes an object   step mutate: a pool bytearray is overwritten  a  b  -  d  e   never
     between calls                  in place (same or other length), immutable
                                    forms replaced in the caller's list
+  (big / big-boundary / big-comb cases are single calls: fresh sequence objects and accumulators for every call, one
+  KmerSpec per case used by its 9 calls; nothing outlives a call there, so they add no row to this table.)
   b* = an accumulator is documented to be modified: its content is judged (union semantics) instead.
   (c) failing calls: a non-ASCII str, None, int or float in the middle of the collection, or the caller's
   generator raising after n items; what such a call returns or raises is NOT judged (counted in
@@ -118,7 +133,8 @@ RULE = ('sig: (k, prefix, sequences) -> calc_signature for 4 input types x 2 acc
         'every call form (k / prefix / KmerSpec representation, container, element type, accumulator route, file) vs '
         'signature_spec + dtype_spec, non-trivial: non-empty signature; findx: find_kmers for 4 input types, k-mer sets '
         'per strand vs fwd_kmers spec and kmer() vs kmer_index(), non-trivial: >= 2 matches; big: generated long '
-        'sequences (described by seed) vs the Python reference of the specification, non-trivial: >= 100 k-mers; state: a '
+        'sequences (described by seed) vs the Python reference of the specification, non-trivial: >= 100 k-mers (boundary / comb '
+        'descriptions, whose background mostly does not match: at least one k-mer per alignment listed); state: a '
         'script of 2-6 calls (calc_signature / accumulate_kmers+signature / find_kmers / calc_file_signature(s) / CLI create / '
         'a call failing part-way / the caller overwriting a bytearray or a file) over shared KmerSpec, sequence, list, '
         'accumulator, SequenceFile and executor objects, on the main, a worker or a new thread: every call made twice and judged '
@@ -136,7 +152,9 @@ ASSUMPTIONS = ['str inputs are ASCII (the code raises otherwise); prefix is non-
                'fix: commit (KmerSpec: k = int(k), repo_fixes/C14-uint8-k.diff); judged like every other form, counted in '
                'extra[unsigned_k]',
                'kind big is judged by the Python reference _py_sig of the specification (cross-checked against the '
-               'extracted signature_spec on every api case), the Coq model is not run on those inputs',
+               'extracted signature_spec on every api case), the Coq model is not run on those inputs; on texts of 4096 bytes '
+               'or more the reference finds the prefix occurrences with NumPy (same predicate for all positions at once), '
+               'compared with the position-by-position loop on every big case of at most 300000 bytes',
                'kind state: steps are judged by _py_sig and every judged (k, prefix, sequences) of at most 400 bytes is also sent to '
                'the extracted signature_spec; an accumulator handed to calc_signature is emptied by the caller first (a pre-filled '
                'one is not stated), accumulate_kmers is judged with union semantics (documented: adds to the accumulator); the '
@@ -265,14 +283,29 @@ _CODE = {65: 0, 67: 1, 71: 2, 84: 3}
 _RCTAB = bytes.maketrans(b'ACGTacgt', b'TGCAtgca')
 
 
-def _py_fwd(k, p, s):
+def _occ(u, p, limit, plain=False):
+	"""every q in [0, limit) with u[q:q+len(p)] == p, in order.  Long texts: the same predicate evaluated for all q at once
+	with NumPy (one comparison per prefix letter); `plain` forces the position-by-position loop (the two are compared on
+	every long-sequence case of at most 300000 bytes, see _big_one)"""
+	if limit <= 0:
+		return []
+	if plain or len(u) < 4096:
+		return [q for q in range(limit) if u.startswith(p, q)]
+	a = np.frombuffer(u, dtype=np.uint8)
+	mask = a[0:limit] == p[0]
+	for i in range(1, len(p)):
+		mask &= a[i:i + limit] == p[i]
+	return np.flatnonzero(mask).tolist()
+
+
+def _py_fwd(k, p, s, plain=False):
 	"""indices of the valid k-mers that follow forward-strand occurrences of p in s, by position
 	(direct transcription of Spec/C01.v fwd_kmers)"""
 	u = bytes(s).upper()          # bytes.upper touches a-z only, like Spec.Kmers.upper
 	out = []
 	m = len(p)
-	for q in range(0, len(u) - m - k + 1):
-		if u.startswith(p, q):
+	for q in _occ(u, p, len(u) - m - k + 1, plain):
+		if True:
 			v = 0
 			for b in u[q + m:q + m + k]:
 				d = _CODE.get(b)
@@ -289,11 +322,11 @@ def _py_rc(s):
 	return bytes(s).translate(_RCTAB)[::-1]
 
 
-def _py_sig(k, p, seqs):
+def _py_sig(k, p, seqs, plain=False):
 	acc = set()
 	for s in seqs:
-		acc.update(_py_fwd(k, p, s))
-		acc.update(_py_fwd(k, p, _py_rc(s)))
+		acc.update(_py_fwd(k, p, s, plain))
+		acc.update(_py_fwd(k, p, _py_rc(s), plain))
 	return sorted(acc)
 
 
@@ -639,9 +672,125 @@ def k_findx(ctx, cases):
 		ctx.case(c if len(s) < 80 else dict(k=k, prefix=c['prefix'], n=len(s)), nontrivial=nm >= 2)
 
 
+_TBL4 = bytes(b'ACGT'[i & 3] for i in range(256))
+_TBL8 = bytes(b'ACGTacgt'[i & 7] for i in range(256))
+
+
+def _filler(bg, n, seed):
+	"""background of a boundary / comb sequence.  'N', 'n': a letter that never matches; 'aN': N's after one lower-case
+	letter; 'rand' / 'randl': random ACGT / ACGTacgt (matches everywhere: used with k-mers long enough that a planted
+	k-mer is not found in the background as well)"""
+	import random
+	if bg in ('rand', 'randl'):
+		return bytearray(random.Random(seed).randbytes(n).translate(_TBL4 if bg == 'rand' else _TBL8))
+	if bg == 'aN':
+		return bytearray(b'a'[:n] + b'N' * max(0, n - 1))
+	return bytearray(bg.encode()[:1] * n)
+
+
+def _planter(p, k, r):
+	"""plant(buf, s, strand, lower): write prefix + a k-mer not planted before in this case (strand 1: their reverse
+	complement = an occurrence on the reverse strand) at offset s of buf, unless it does not fit or would overlap an
+	earlier plant of the same buffer (plants never destroy each other)"""
+	w = len(p) + k
+	space = 4 ** k
+	usedk = set()
+	used = {}
+
+	def plant(buf, s, strand, lower=False):
+		if s < 0 or s + w > len(buf):
+			return False
+		mine = used.setdefault(id(buf), {})
+		for q in (s // w - 1, s // w, s // w + 1):
+			o = mine.get(q)
+			if o is not None and abs(o - s) < w:
+				return False
+		mine[s // w] = s
+		for _ in range(50):
+			x = r.randrange(space)
+			if x not in usedk:
+				break
+		usedk.add(x)
+		win = p + bytes(NUC[(x >> (2 * (k - 1 - i))) & 3] for i in range(k))
+		if strand:
+			win = _py_rc(win)
+		if lower:
+			win = win.lower()
+		buf[s:s + w] = win
+		return True
+	return plant
+
+
+def _boundary_seqs(g):
+	"""`big` case with key `boundary` = B: the SEQUENCE-LENGTH / OFFSET dimension of "every collection of input sequences".
+	One sequence a little longer than B per (j in g['js'], strand): a complete prefix + k-mer span that begins j bytes
+	before offset B (j = 0: begins at B, j = prefix_len + k: ends flush with B, otherwise it straddles B with the offset
+	falling inside the prefix, between prefix and k-mer or inside the k-mer), between two touching spans of the other
+	strand; `tails`: sequences of length B + t with spans flush with both ends; `multi`: one sequence longer than 3 B with
+	spans straddling B, 2 B and 3 B; and one short sequence.  Every planted k-mer is planted once in the whole case, so
+	losing a single occurrence changes the signature."""
+	import random
+	r = random.Random(g['seed'])
+	p = g['prefix'].encode()
+	k, B, bg = g['k'], g['boundary'], g.get('bg', 'N')
+	w = len(p) + k
+	plant = _planter(p, k, r)
+	bufs = []
+	short = _filler(bg, 3 * w + r.randint(0, 40), r.randrange(2 ** 31))
+	plant(short, r.randrange(len(short) - w + 1), r.randrange(2))
+	bufs.append(short)
+	for j in g.get('js', []):
+		for strand in (0, 1):
+			buf = _filler(bg, B + 2 * w + r.randint(1, 300), r.randrange(2 ** 31))
+			plant(buf, B - j, strand, r.random() < 0.25)
+			plant(buf, B - j - w, 1 - strand, r.random() < 0.25)
+			plant(buf, B - j + w, 1 - strand, r.random() < 0.25)
+			bufs.append(buf)
+	for n, t in enumerate(g.get('tails', [])):
+		buf = _filler(bg, B + t, r.randrange(2 ** 31))
+		plant(buf, 0, n & 1)
+		plant(buf, len(buf) - w, 1 - (n & 1))
+		plant(buf, len(buf) - 2 * w, n & 1)
+		bufs.append(buf)
+	if g.get('multi'):
+		buf = _filler(bg, 3 * B + 2 * w + r.randint(1, 300), r.randrange(2 ** 31))
+		for m, j in ((1, len(p)), (2, 1), (3, w - 1), (2, 1 + w), (3, w - 1 - w), (1, len(p) + w)):
+			plant(buf, m * B - j, r.randrange(2), r.random() < 0.25)
+		bufs.append(buf)
+	return [bytes(b) for b in bufs]
+
+
+def _comb_seqs(g):
+	"""`big` case with key `comb` = [steps]: one sequence of g['lens'][0] bytes with a prefix + k-mer span across EVERY
+	multiple of every step; how far before the multiple the span begins (one of g['js']), its strand and letter case are
+	a hash of the multiple and the seed, so that the multiples of any larger unit (2^13 .. 2^20, 10^5 ...) see varied
+	alignments"""
+	import random
+	r = random.Random(g['seed'])
+	p = g['prefix'].encode()
+	k, js = g['k'], g['js']
+	n = g['lens'][0]
+	plant = _planter(p, k, r)
+	buf = _filler(g.get('bg', 'N'), n, r.randrange(2 ** 31))
+	plant(buf, 0, 0)
+	plant(buf, n - len(p) - k, 1)
+	for step in g['comb']:
+		for m in range(1, n // step + 1):
+			h = (m * 2654435761 + g['seed'] * 40503 + step) & 0xFFFFFFFF
+			h = ((h ^ (h >> 15)) * 2246822519) & 0xFFFFFFFF          # mix: multiples of 2^i must not share low bits
+			h = ((h ^ (h >> 13)) * 3266489917) & 0xFFFFFFFF
+			h ^= h >> 16
+			plant(buf, m * step - js[h % len(js)], (h >> 12) & 1, (h >> 14) % 4 == 0)
+	return [bytes(buf)]
+
+
 def _big_seqs(g):
 	"""the sequences of a `big` case, a deterministic function of its description g"""
 	import random
+	if 'boundary' in g:
+		return _boundary_seqs(g)
+	if 'comb' in g:
+		return _comb_seqs(g)
 	r = random.Random(g['seed'])
 	nr = np.random.RandomState(g['seed'] % (2 ** 32))
 	p = g['prefix'].encode()
@@ -676,8 +825,13 @@ def _big_one(ctx, c):
 	k, P = c['k'], c['prefix']
 	seqs = _big_seqs(c)
 	spec = _py_sig(k, P.encode(), seqs)
+	if sum(len(s) for s in seqs) <= 300000:
+		# the reference enumerates occurrences with NumPy on long texts: same answer as the position-by-position loop
+		if spec != _py_sig(k, P.encode(), seqs, plain=True):
+			ctx.broke('harness reference: _occ with NumPy vs the position-by-position loop', f'{c}')
 	want = (spec, _py_dts(k))
-	ctx.case(c, nontrivial=len(spec) >= 100)
+	# boundary / comb cases: most of the planted k-mers present (background of non-matching letters: few others)
+	ctx.case(c, nontrivial=len(spec) >= (100 if 'js' not in c else max(2, len(c['js']))))
 	kspec = KmerSpec(k, P)
 	for form in ('bytes', 'bytearray', 'str', 'seq'):
 		try:
@@ -695,7 +849,7 @@ def _big_one(ctx, c):
 				return
 			if got != want:
 				a, b = set(got[0]) if isinstance(got[0], list) else set(), set(spec)
-				ctx.violation('big', c, f'{form}/{accname}: signature of {len(seqs)} generated sequences (lengths {c["lens"]}) has '
+				ctx.violation('big', c, f'{form}/{accname}: signature of {len(seqs)} generated sequences (lengths {[len(s) for s in seqs][:40]}) has '
 				              f'{len(got[0])} k-mers, item size {got[1]}; the specification gives {len(spec)}, item size {want[1]}; '
 				              f'missing {sorted(b - a)[:10]} spurious {sorted(a - b)[:10]}',
 				              impl=[len(got[0]), got[1]], spec=[len(spec), want[1]])
@@ -1780,4 +1934,50 @@ def generate(ctx):
 		k = rng.choice([4, 8, 9, 11, 16, 17, 32])
 		g.update(k=k, prefix=bytes(rng.choice(NUC) for _ in range(rng.randint(3, 5))).decode(), seed=rng.randrange(2 ** 31))
 		ctx.count('stream:big')
+		yield 'big', g
+
+	# long sequences, the offset dimension: a complete prefix + k-mer span at every alignment to an offset B that a
+	# size-dependent code path could treat specially (powers of two and of ten), in sequences just longer than B, 3 B and
+	# exactly B + 0, 1, k, ... bytes (see _boundary_seqs); and spans across every multiple of 2^12 and 10^4 of a sequence
+	# of several megabytes (see _comb_seqs).  Judged like every `big` case: calc_signature for 4 input types and the
+	# accumulators against the Python reference of the specification.
+	def jsub(k, plen):
+		w = plen + k
+		return sorted({0, 1, 2, plen - 1, plen, plen + 1, k - 1, k, k + 1, w - 2, w - 1, w} & set(range(w + 1)))
+
+	def spec_for(boundary, plo=1):
+		k = rng.choice([4, 5, 8, 9, 11, 12, 16, 17, 31, 32])
+		plen = rng.randint(plo, 7)
+		p = bytes(rng.choice(NUC) for _ in range(plen)).decode()
+		if k <= 9 or plen < (5 if boundary < 2 ** 20 else 6):
+			# (a random background matches a short prefix every few bytes: megabytes of it cost too much; and a short k-mer
+			# planted in it is found elsewhere as well)
+			bg = rng.choice(['N', 'n', 'aN', 'aN'] if boundary <= 2 ** 20 and boundary != 10 ** 6 else ['aN'])
+		else:
+			# an all-upper-case text makes find_kmers look at every byte in a Python loop: kept for the smaller ones
+			bg = rng.choice(['rand', 'randl', 'aN'] if boundary <= 2 ** 20 and boundary != 10 ** 6 else ['randl', 'aN'])
+		return dict(k=k, prefix=p, bg=bg, seed=rng.randrange(2 ** 31)), k, plen
+
+	full = [2 ** 12, 2 ** 16] + ([] if ctx.quick else [2 ** 10, 10 ** 3, 2 ** 13, 2 ** 14, 2 ** 15, 10 ** 4, 2 ** 16 - 1, 10 ** 5, 2 ** 17, 2 ** 18])
+	sub = [2 ** 20, 10 ** 6] + ([] if ctx.quick else [2 ** 19, 2 ** 20, 2 ** 20, 2 ** 21])
+	few = [2 ** 21, 2 ** 22] + ([] if ctx.quick else [2 ** 23, 10 ** 7, 2 ** 24])
+	for B in full:
+		g, k, plen = spec_for(B)
+		g.update(boundary=B, js=list(range(plen + k + 1)), tails=[0, 1, k, plen + k - 1, plen + k], multi=True)
+		ctx.count('stream:big-boundary')
+		yield 'big', g
+	for B in sub:
+		g, k, plen = spec_for(B, 2)
+		g.update(boundary=B, js=jsub(k, plen), tails=[0, 1, k, plen + k - 1, plen + k], multi=True)
+		ctx.count('stream:big-boundary')
+		yield 'big', g
+	for B in few:
+		g, k, plen = spec_for(B, 2)
+		g.update(boundary=B, js=[1, plen + k - 1], tails=[1])
+		ctx.count('stream:big-boundary')
+		yield 'big', g
+	for n in [2 ** 21 + rng.randint(50, 5000)] + ([] if ctx.quick else [2 ** 22 + rng.randint(50, 5000), 2 ** 23 + 77, 10 ** 6 + rng.randint(50, 5000)] + [rng.randint(2 ** 18, 2 ** 22) for _ in range(6)]):
+		g, k, plen = spec_for(n, 2)
+		g.update(lens=[n], comb=[2 ** 12, 10 ** 4], js=jsub(k, plen))
+		ctx.count('stream:big-comb')
 		yield 'big', g
